@@ -166,6 +166,10 @@ func (i *Interpreter) getOriginHostHeader(backend *value.Backend, defaultHost st
 }
 
 func (i *Interpreter) sendBackendRequest(backend *value.Backend) (*http.Response, error) {
+	// e.g. req.backend has been changed to a director after the backend request was created
+	if backend == nil || backend.Value == nil {
+		return nil, exception.Runtime(nil, "No backend determined on FETCH")
+	}
 	fbt, err := i.getBackendProperty(backend.Value.Properties, "first_byte_timeout")
 	if err != nil {
 		return nil, errors.WithStack(err)
